@@ -13,7 +13,9 @@ CONSTANTS SkelSel,     \* skeleton names to use
           MoreKinds,   \* trivia kinds offered to later placements
           Sim,         \* TRUE: one random successor per step
           WithItems,   \* TRUE: every exported layout carries Items (the text, for cross-checking the driver's renderer)
-          WithSkel     \* TRUE: the default-layout state of a skeleton exports the skeleton record
+          WithSkel,    \* TRUE: the default-layout state of a skeleton exports the skeleton record
+          LightSkels,  \* skeletons whose point is their default layout (declaration order): only LightKinds are placed
+          LightKinds
 VARIABLES sk, pl, tk, sc   \* skeleton name, placements; its token sequence and the scope of every gap (both constant
                        \* along a behaviour, kept in the state so that TLC computes them once per skeleton)
 vars == <<sk, pl, tk, sc>>
@@ -29,7 +31,7 @@ ZoneV(g) == ZoneOf(tk, g, ScV(g), IF g > 0 THEN ScV(g - 1) ELSE "file")
 FeatureV(p) == KindCat(p[2]) \o "@" \o ZoneV(p[1]) \o "(" \o ClassV(p[1]) \o ")=" \o p[2]
 FeaturesV == {FeatureV(p) : p \in pl}
 
-Offered == IF pl = {} THEN FirstKinds ELSE MoreKinds
+Offered == IF sk \in LightSkels THEN LightKinds ELSE IF pl = {} THEN FirstKinds ELSE MoreKinds
 Free(g) == \A p \in pl : p[1] # g
 Near(g) == Dist = 0 \/ pl = {} \/ \E p \in pl : (IF p[1] > g THEN p[1] - g ELSE g - p[1]) <= Dist
 Choices == {c \in Gaps(tk) \X Offered : Free(c[1]) /\ Near(c[1]) /\ Admissible(tk, c[1], c[2])}
@@ -65,5 +67,5 @@ Export == /\ (pl = {} /\ WithSkel) => PrintT("CASE " \o ToJson(SkelRec))
    (spot-checked at both ends and in the middle of every skeleton; the full recomputation per state is what tk / sc avoid) *)
 ScopeOK == (pl = {} /\ WithSkel) =>
              /\ tk = Skel[sk] /\ sc = ScopeSeq(tk)
-             /\ \A g \in {0, 1, N \div 2, N - 1, N} : ClassV(g) = Class(tk, g) /\ ZoneV(g) = Zone(tk, g)
+             /\ \A g \in {0, 1, N \div 2, N - 1, N} \cap Gaps(tk) : ClassV(g) = Class(tk, g) /\ ZoneV(g) = Zone(tk, g)
 =============================================================================
